@@ -1,0 +1,12 @@
+//go:build verif
+
+package reader
+
+// VerifState reports the read position, input length and pending pushback.
+func (lr *LexerReader) VerifState() (pos, n, pending int) {
+	pending = len(lr.history)
+	if lr.ungetFlg {
+		pending++
+	}
+	return lr.pos, len(lr.runes), pending
+}
